@@ -392,6 +392,7 @@ def vop3Table (cdna3 : Bool) (op : Nat) : Option VOp :=
   | 483 => some { triF "v_div_fmas_f64" F.f64 (fun a b c => F.fma F.f64 a b c) with kind := .fmas }
   | 488 => some { name := "v_mad_u64_u32", nsrc := 3, w2 := 64, wd := 64, kind := .carryOut,
                   f := fun x => let r := madU64U32 (w32 x.a) (w32 x.b) (w64 x.c); ⟨r.1.toNat, r.2⟩ }
+  | 499 => if cdna3 then some (tri32 "v_xad_u32" xad) else none
   | 509 => if cdna3 then some (tri32 "v_lshl_add_u32" lshlAdd) else none
   | 510 => if cdna3 then some (tri32 "v_add_lshl_u32" addLshl) else none
   | 511 => some (tri32 "v_add3_u32" add3)
@@ -570,7 +571,7 @@ def St.rvN (st : St) (r lane n : Nat) : Nat :=
   (List.range n).foldl (fun acc i => acc + st.rv (r + i) lane * 2 ^ (32 * i)) 0
 def activeLanes (st : St) : List Nat := (List.range 64).filter fun i => st.exec.testBit i
 
-/-- SMEM S_LOAD_DWORD{,X2,X4,X8,X16}: SGPRs[sdata..] = MEM[SBASE + OFFSET] -/
+/-- SMEM S_LOAD_DWORD{,X2,X4,X8,X16}: SGPRs[sdata..] = MEM[(SBASE + OFFSET) & ~3] -/
 def execSMEM (cdna3 : Bool) (st : St) (w0 w1 : Nat) : Option (String × List Wr) :=
   let op := field w0 18 25
   if op > 4 then none else
@@ -582,7 +583,9 @@ def execSMEM (cdna3 : Bool) (st : St) (w0 w1 : Nat) : Option (String × List Wr)
       (if cdna3 then (if bit w1 20 then (field w1 0 20 : Int) - 2 ^ 21 else (field w1 0 20 : Int))
        else (field w1 0 19 : Int))
     else (st.rs (field w1 0 6) : Int)
-  let addr := (((base : Int) + off) % (2 ^ 64 : Int)).toNat
+  -- "m_addr = (SGPR[SBASE * 2] + m_offset) & ~0x3" (GCN3 ISA, S_LOAD_DWORD); Vega/CDNA3 ISA §8.1.1:
+  -- "the two LSBs are ignored and treated as if they were zero"
+  let addr := (((base : Int) + off) % (2 ^ 64 : Int)).toNat / 4 * 4
   let sdata := field w0 6 12
   let ws := (List.range n).flatMap fun i => wrS32 st (sdata + i) (st.memRead (addr + 4 * i) 4)
   some (#["s_load_dword", "s_load_dwordx2", "s_load_dwordx4", "s_load_dwordx8", "s_load_dwordx16"][op]!, ws)
